@@ -90,7 +90,9 @@ fn add_correction(ts: Timestamp, correction: TimeInterval) -> Timestamp {
         .wrapping_add(intermediate_nanos.div_euclid(1_000_000_000).into());
     let corrected_nanos = intermediate_nanos.rem_euclid(1_000_000_000);
 
-    Timestamp::new(corrected_seconds, corrected_nanos)
+    // The seconds of a PTP timestamp are 48 bits wide; like the additions above, wrap into that
+    // range so that no correction a server can send makes the construction fail.
+    Timestamp::new(corrected_seconds & ((1 << 48) - 1), corrected_nanos)
         .expect("Calculated nanoseconds should be between 0 and 1_000_000_000")
 }
 
